@@ -6,15 +6,17 @@ import os as _os; _os.environ["VERIF_NO_EVIDENCE"] = "1"   # never let a run aga
 d = os.path.abspath(sys.argv[1]); ids = sys.argv[2:] or ["C%02d" % i for i in range(1, 21)]
 scratch = tempfile.mkdtemp(prefix="benign-", dir="/tmp")
 repo = os.path.join(scratch, "repo")
-subprocess.check_call(["rsync", "-a", "--exclude", "target", "/repo/", repo + "/"])
+pristine = os.path.join(scratch, "pristine")       # one snapshot: later edits of /repo cannot leak into the scratch copy
+subprocess.check_call(["rsync", "-a", "--exclude", "/target", "--exclude", "/.git", "/repo/", pristine + "/"])
+subprocess.check_call(["rsync", "-a", pristine + "/", repo + "/"])
 env = dict(os.environ, VERIF_REPO=repo)
 rows = []
 try:
     for p in sorted(glob.glob(os.path.join(d, "b*.diff"))):
-        r = subprocess.run(["git", "-C", repo, "apply", "--check", p], stdout=subprocess.PIPE, stderr=subprocess.STDOUT, text=True)
+        r = subprocess.run(["patch", "-p1", "--dry-run", "-s", "-d", repo, "-i", p], stdout=subprocess.PIPE, stderr=subprocess.STDOUT, text=True)
         if r.returncode != 0:
             rows.append((os.path.basename(p), "DOES-NOT-APPLY", r.stdout.strip()[:100])); continue
-        subprocess.check_call(["git", "-C", repo, "apply", p])
+        subprocess.check_call(["patch", "-p1", "-s", "-d", repo, "-i", p])
         try:
             hits = []
             for cid in ids:
@@ -26,8 +28,7 @@ try:
                     hits.append("\n      ".join(msgs))
             rows.append((os.path.basename(p), "ALARM" if hits else "silent", "\n      ".join(hits)))
         finally:
-            subprocess.check_call(["git", "-C", repo, "checkout", "--", "."])
-            subprocess.run(["git", "-C", repo, "clean", "-fdq"], check=False)
+            subprocess.check_call(["rsync", "-a", "--delete", pristine + "/", repo + "/"])
         print("%-10s %-16s %s" % rows[-1], flush=True)
 finally:
     shutil.rmtree(scratch, ignore_errors=True)
